@@ -35,9 +35,11 @@ pub enum Kind {
     Damage,
     NewInst,
     Unlink,
+    BigGroup,
+    RejectedMerge,
 }
 
-const KINDS: [Kind; 24] = [
+const KINDS: [Kind; 26] = [
     Kind::Add,
     Kind::AddNext,
     Kind::NextOnly,
@@ -62,16 +64,18 @@ const KINDS: [Kind; 24] = [
     Kind::Damage,
     Kind::NewInst,
     Kind::Unlink,
+    Kind::BigGroup,
+    Kind::RejectedMerge,
 ];
 
 fn base_weights(prop: &str) -> Vec<(Kind, u32)> {
     use Kind::*;
-    let core = vec![(Add, 10), (AddNext, 4), (Bind, 16), (Put, 11), (Data, 12)];
+    let core = vec![(Add, 10), (AddNext, 4), (Bind, 16), (Put, 11), (Data, 12), (BigGroup, 1)];
     let mut w = core;
     match prop {
         "C01" => w.extend([
             (NextOnly, 1), (Clone, 2), (DropInst, 1), (Save, 2), (SaveLoadLinked, 1), (Load, 1), (Crash, 1),
-            (Slice, 2), (Merge, 1), (Script, 1), (DrainClone, 1), (NewInst, 1), (Cycle, 1),
+            (Slice, 2), (Merge, 1), (Script, 1), (DrainClone, 1), (NewInst, 1), (Cycle, 1), (RejectedMerge, 1),
         ]),
         "C02" => w.extend([
             (Clone, 1), (Save, 1), (Load, 1), (Crash, 1), (DrainClone, 2), (Cycle, 2), (NextOnly, 1),
@@ -84,7 +88,7 @@ fn base_weights(prop: &str) -> Vec<(Kind, u32)> {
         ]),
         "C05" => w.extend([
             (AddNext, 10), (NextOnly, 6), (Clone, 3), (CloneLinked, 1), (DropInst, 1), (Merge, 2), (Script, 3),
-            (Save, 1), (Load, 1), (Crash, 1), (Cycle, 2),
+            (Save, 1), (Load, 1), (Crash, 1), (Cycle, 2), (RejectedMerge, 1),
         ]),
         "C06" => w.extend([(Cycle, 30), (Save, 1), (Load, 1), (Crash, 1)]),
         "C07" => w.extend([
@@ -100,11 +104,11 @@ fn base_weights(prop: &str) -> Vec<(Kind, u32)> {
             (Clone, 4), (CloneLinked, 5), (DropInst, 2), (Unlink, 1), (NextOnly, 2), (Merge, 1), (Cycle, 2),
             (Save, 1), (Load, 1), (DrainClone, 1),
         ]),
-        "C11" => w.extend([(Merge, 6), (Save, 1), (Load, 1), (Crash, 1), (DrainClone, 1)]),
+        "C11" => w.extend([(Merge, 6), (Save, 1), (Load, 1), (Crash, 1), (DrainClone, 1), (RejectedMerge, 1)]),
         "C13" => w.extend([(Slice, 10), (Bind, 8), (Reseed, 1), (Clone, 1), (Cycle, 1), (Put, 0)]),
         "C19" => w.extend([
             (Slice, 4), (Merge, 3), (Reseed, 2), (NextOnly, 2), (Clone, 1), (Save, 1), (Load, 1), (Script, 1),
-            (Cycle, 2), (DrainClone, 1),
+            (Cycle, 2), (DrainClone, 1), (RejectedMerge, 1),
         ]),
         _ => {}
     }
@@ -176,13 +180,15 @@ pub fn pick_cfg(rng: &mut Rng, prop: &str, tier_thorough: bool) -> Cfg {
         eintr_every: if rng.chance(1, 4) { rng.range(1, 9) } else { 0 },
         hash_xor: 0,
         contract: None,
+        adopt_alive: false,
     }
 }
 
 impl Gen {
     pub fn new(seed: u64, prop: &str, thorough: bool, fault_free: bool) -> Self {
         let mut rng = Rng::new(seed);
-        let cfg = pick_cfg(&mut rng, prop, thorough);
+        let mut cfg = pick_cfg(&mut rng, prop, thorough);
+        cfg.adopt_alive = prop == "C01";
         // swarm: every kind keeps its base weight, is damped, or is switched off
         let base = base_weights(prop);
         let mut weights = vec![0_u32; KINDS.len()];
@@ -646,6 +652,67 @@ impl Gen {
                 }
                 Some(Step::Script { i, cmds, style: self.rng.below(256) as u8, var: view.fresh_var() })
             }
+            Kind::BigGroup => {
+                // a group that grows to 15 or 16 members (the limit) as a chain, holds one or two
+                // data, and is then read to death
+                if m.groups_alive() >= MAX_GROUPS {
+                    return None;
+                }
+                let size = if self.rng.chance(2, 3) { MAX_GROUP } else { MAX_GROUP - 1 };
+                let mut absent: Vec<usize> = (0..m.cap).filter(|v| !m.is_present(*v)).collect();
+                if absent.len() < size {
+                    return None;
+                }
+                self.rng.shuffle(&mut absent);
+                absent.truncate(size);
+                for v in &absent[1..] {
+                    self.queue.push_back(Step::Add { i, v: Id::L(*v) });
+                }
+                let l = self.label();
+                let star = view.cfg.n >= size - 1 && self.rng.chance(1, 2);
+                for k in 0..size - 1 {
+                    if star {
+                        let lab = PLabel::A(100 + k);
+                        self.queue.push_back(Step::Bind { i, a: Id::L(absent[0]), b: Id::L(absent[k + 1]), l: lab });
+                    } else if self.rng.chance(1, 2) {
+                        self.queue.push_back(Step::Bind { i, a: Id::L(absent[k]), b: Id::L(absent[k + 1]), l: l.clone() });
+                    } else {
+                        self.queue.push_back(Step::Bind { i, a: Id::L(absent[k + 1]), b: Id::L(absent[k]), l: l.clone() });
+                    }
+                }
+                let carriers = [absent[size - 1], absent[self.rng.below(size)]];
+                for c in carriers {
+                    let d = self.data_bytes();
+                    self.queue.push_back(Step::Put { i, v: Id::L(c), d });
+                }
+                if self.rng.chance(3, 4) {
+                    for c in carriers {
+                        self.queue.push_back(Step::Data { i, v: Id::L(c) });
+                    }
+                }
+                Some(Step::Add { i, v: Id::L(absent[0]) })
+            }
+            Kind::RejectedMerge => {
+                // a merge that sodg rejects in a defined way (the right graph has a vertex that is not
+                // reachable from its root), on two throw-away graphs: whatever it leaves behind in the
+                // process must not change what later calls on other graphs answer
+                let free: Vec<usize> = (0..view.insts.len()).filter(|k| view.insts[*k].is_none()).collect();
+                if free.len() < 2 {
+                    return None;
+                }
+                let (x, y) = (free[0], free[1]);
+                let extra = self.rng.range(1, 3.min(view.cfg.cap - 1));
+                self.queue.push_back(Step::Add { i: x, v: Id::L(0) });
+                self.queue.push_back(Step::Empty { i: y });
+                self.queue.push_back(Step::Add { i: y, v: Id::L(0) });
+                for k in 1..=extra {
+                    self.queue.push_back(Step::Add { i: y, v: Id::L(k) });
+                }
+                self.queue.push_back(Step::Oob { i: x, call: Oob::MergeNonTree(y, Id::L(0), Id::L(0)) });
+                self.queue.push_back(Step::Drop { i: x });
+                self.queue.push_back(Step::Drop { i: y });
+                Some(Step::Empty { i: x })
+            }
             Kind::Cycle => self.cycle(view, i),
             Kind::Oob => self.oob(view, i),
             Kind::Damage => {
@@ -654,7 +721,8 @@ impl Gen {
                     return None;
                 }
                 let sz = view.paths[path].size.max(1);
-                let kind = match self.rng.below(6) {
+                let kind = match self.rng.below(8) {
+                    6 | 7 => Damage::InlineSize(self.rng.below(64), *self.rng.pick(&[9, 16, 64, 200, 255])),
                     0 | 1 => Damage::BitFlip(self.rng.below(sz), self.rng.below(8) as u8),
                     2 => Damage::ZeroBlock(self.rng.below(sz), self.rng.range(1, 64)),
                     3 => Damage::Truncate(self.rng.below(sz)),
